@@ -1,6 +1,9 @@
 package types
 
-import "github.com/jcmturner/gokrb5/v8/zzverif"
+import (
+	"github.com/jcmturner/gofork/encoding/asn1"
+	"github.com/jcmturner/gokrb5/v8/zzverif"
+)
 
 // VH_C13_Flags: RFC 4120 5.2.8 bit numbering (bit 0 is the most significant bit of the first octet).
 func VH_C13_Flags() {
@@ -26,5 +29,31 @@ func VH_C13_Flags() {
 		zzverif.Assert("unset-leaves-others", IsFlagSet(&f, j) == before)
 	}
 	zzverif.Assert("bitlength-32", f.BitLength == 32 && len(f.Bytes) == 4)
+	zzverif.Reach("done")
+}
+
+// VH_C13_FlagsFromZeroValue: flags assembled on a zero-value (or short) BIT STRING still come out as
+// KerberosFlags ::= BIT STRING (SIZE (32..MAX)) with the flag at its RFC 4120 position.
+func VH_C13_FlagsFromZeroValue() {
+	i := zzverif.Int()
+	j := zzverif.Int()
+	zzverif.Assume(i >= 0 && i < 32 && j >= 0 && j < 32)
+	var f asn1.BitString
+	n := zzverif.Choose(0, 3) // a bit string of 0..3 octets, e.g. as decoded from a peer
+	for k := 0; k < n; k++ {
+		f.Bytes = append(f.Bytes, zzverif.Byte())
+	}
+	f.BitLength = 8 * n
+	before := j/8 < n && f.Bytes[j/8]&(0x80>>(uint(j)%8)) != 0
+	SetFlag(&f, i)
+	zzverif.Assert("at-least-32-bits-after-set", f.BitLength >= 32 && len(f.Bytes)*8 >= f.BitLength)
+	zzverif.Assert("set-then-isset", IsFlagSet(&f, i))
+	zzverif.Assert("flag-at-rfc-position", len(f.Bytes) > i/8 && f.Bytes[i/8]&(0x80>>(uint(i)%8)) != 0)
+	if i != j {
+		zzverif.Assert("set-leaves-others", IsFlagSet(&f, j) == before)
+	}
+	var g asn1.BitString
+	UnsetFlag(&g, i)
+	zzverif.Assert("at-least-32-bits-after-unset", g.BitLength >= 32 && len(g.Bytes)*8 >= g.BitLength)
 	zzverif.Reach("done")
 }
